@@ -35,7 +35,7 @@ def corpus(tier):
              [HDRS[0], HDRS[4], HDRS[5]], [HDRS[0], HDRS[8], HDRS[9], HDRS[10]],
              [HDRS[0], HDRS[1], HDRS[7], HDRS[6]]]
     if thorough:
-        hsets += [[HDRS[0]] + list(c) for c in itertools.combinations(HDRS[1:], 2)]
+        hsets += [[HDRS[0]] + list(c) for c in itertools.combinations(HDRS[1:], 2)][::6]
     for mi, m in enumerate(METHODS):
         for ti, (t, _o) in enumerate(TARGETS):
             for hi, hs in enumerate(hsets):
@@ -91,7 +91,8 @@ def scenarios(tier):
                 continue
             fa = ['--threadless'] + (['--disable-headers', dis] if dis else [])
             for pos in ('first', 'second'):
-                pks = packings(m.raw, tier)
+                # every single cut only for short messages; token-boundary cuts otherwise
+                pks = packings(m.raw, tier if (len(m.raw) <= 110 and pos == 'first') else 'quick')
                 if pos == 'second' and tier == 'quick' and (m.framing != 'cl' or len(m.raw) > 160):
                     pks = pks[:2]
                 for pname, pieces in pks:
